@@ -206,13 +206,15 @@ func (o Op) Run() (out hx.Outcome) {
 		}
 		res := validate.NewHeaderValidator("X-H", h, o.registry(), validate.WithRecycleValidators(true)).Validate(goValue(o.Val))
 		return resultOutcome(res)
-	case "spec":
+	case "spec", "specdef":
 		doc, err := loads.Analyzed(json.RawMessage(o.Def), "")
 		if err != nil {
 			return hx.Outcome{Panic: "document does not load: " + err.Error()}
 		}
 		sv := validate.NewSpecValidator(doc.Schema(), strfmt.Default)
-		sv.SetContinueOnErrors(o.Val == "continue")
+		if o.Kind == "spec" { // "specdef" keeps the package-level default options
+			sv.SetContinueOnErrors(o.Val == "continue")
+		}
 		errs, warns := sv.Validate(doc)
 		out := hx.Outcome{Valid: errs.IsValid(), Errors: hx.SortedMsgs(errs.Errors)}
 		if warns != nil {
